@@ -46,11 +46,8 @@ pub fn new_cpu() -> Cpu {
         module_manager,
         state_sum: 0,
     };
-    let mut i = 0;
-    while i < 8 {
-        cpu.er[i] = kani::any();
-        i += 1;
-    }
+    // no loop here: harnesses that need a small global unwinding bound use this constructor too
+    cpu.er = [kani::any(), kani::any(), kani::any(), kani::any(), kani::any(), kani::any(), kani::any(), kani::any()];
     cpu.ccr = kani::any();
     cpu
 }
@@ -264,6 +261,9 @@ macro_rules! post_step {
                     7 => assert!(cost_mix_ok(&exp, $su.pc0), concat!("OBL:C20/", stringify!($l), "/cycle_mix")),
                     8 => assert!(charged as u32 == cost_sum(), concat!("OBL:C20/", stringify!($l), "/charge_is_sum")),
                     9 => assert!(seam().msgs == 0, concat!("OBL:", $p, "/", stringify!($l), "/no_message")),
+                    // C08: post-increment / pre-decrement / stack forms update the full 32-bit address register by the
+                    // operand size and nothing else touches an address register (the register file as a whole)
+                    11 => assert!(regs_match(&$cpu.er, &exp), concat!("OBL:C08/", stringify!($l), "/address_registers")),
                     _ => {}
                 }
             }
